@@ -268,7 +268,8 @@ PLAN["C10"]["rule"] += "; TestC10Promotion: stack programs with faulty writes an
 
 PLAN["C07"]["quick"]["tests"][0]["shards"] = 8
 PLAN["C07"]["quick"]["tests"].append({"run": "TestC07Window", "shards": 4, "checks": 12, "timeout": 130, "tags": ("verif", "debug"), "env": {"VERIF_LUNMAP_WINDOW": 1}})
-PLAN["C07"]["quick"]["tests"][1]["checks"] = 3
+PLAN["C07"]["quick"]["tests"][1]["checks"] = 4
+PLAN["C07"]["quick"]["tests"][1]["shards"] = 5
 PLAN["C07"]["thorough"]["tests"][0]["shards"] = 7
 PLAN["C07"]["thorough"]["tests"].append({"run": "TestC07Window", "shards": 3, "checks": 150, "timeout": 840, "tags": ("verif", "debug"), "env": {"VERIF_LUNMAP_WINDOW": 1}})
 PLAN["C07"]["rule"] += ("; TestC07Window: the merge-tier programs against a build of the repository with its own 'debug' tag, whose inject.AddUpdateLUNMapTimeout gives a rendezvous between "
